@@ -110,6 +110,9 @@ func execLine(line string) (out string) {
 		res = opFpSqrt(&fails, fpFromHexBE(f[1]))
 	case f[0] == "pt.fromx" && len(f) == 3:
 		res = opFromX(&fails, fpFromHexBE(f[1]), f[2] == "1")
+	case f[0] == "fp.hist" && len(f) == 4:
+		// a point recovery followed, in the same process, by a square root: results must not depend on the history
+		res = opFromX(&fails, fpFromHexBE(f[1]), f[2] == "1") + " " + opFpSqrt(&fails, fpFromHexBE(f[3]))
 	case f[0] == "grp" && len(f) == 2:
 		res = opGrp(&fails, f[1], false)
 	case f[0] == "batch" && len(f) == 2:
